@@ -100,7 +100,7 @@ fn csel(s: &Sel) -> String {
 fn cdir(d: &Dir) -> &'static str {
     match d {
         Dir::Out => "Out",
-        Dir::In => "In",
+        Dir::In => "Inc",
         Dir::Both => "Both",
     }
 }
